@@ -152,4 +152,118 @@ example := C17_merge_stack_sorted false
 /-- a live document without a value blocks stacking (it must move to the front / back) -/
 example : stackOk false [(1, 5), (6, 9)] [[(some 1, 0, 0)], [(none, 1, 0), (some 9, 1, 1)]] = false := by decide
 
+/-! ## the live-null scan, the stack-vs-k-way decision, null placement -/
+
+/-- `segment_has_live_nulls` is exact for `Full` and `Optional` columns: it answers `true` iff
+some LIVE document has no sort value (deleted documents without value do not count; an
+`Optional` column without deletes always has one). -/
+theorem C17_live_nulls_scan_exact (c : SegCol) (hlen : c.keys.length = c.alive.length)
+    (hcard : CardOk c) (hnm : c.card ≠ .multivalued) :
+    hasLiveNulls c.card c.keys c.alive = true ↔ ∃ k ∈ c.liveKeys, k = none :=
+  hasLiveNulls_iff c hlen hcard hnm
+
+example : hasLiveNulls .optional [none, some 3] [false, true] = false
+    ∧ hasLiveNulls .optional [none, some 3] [true, true] = true
+    ∧ hasLiveNulls .optional [none, some 3, none] [false, true, true] = true := by decide
+
+/-- OPEN for multi-valued sort columns (a row with zero values reads `first() = None`, but the
+scan only inspects `Optional` columns): the decision says "no live null" although one exists.
+Index validation asks for a single-valued fast field in its message but cannot enforce it. -/
+theorem C17_multivalued_nulls_counterexample :
+    hasLiveNulls .multivalued [none, some 5] [true, true] = false ∧
+    stackDecision false [⟨.multivalued, [some 7], [true], (7, 7)⟩,
+                         ⟨.multivalued, [none, some 9], [true, true], (9, 9)⟩] = true := by
+  decide
+
+/-- SOUNDNESS OF THE STACK-VS-K-WAY DECISION (numeric sort fields). If
+`is_disjunct_and_sorted_on_sort_property` answers "stack" — ranges disjunct in reader order and
+the live-null scan negative for every reader — then stacking the readers' live documents is in
+sort order, provided every reader is itself sorted, holds at least one live doc (readers
+without live docs are dropped by `IndexMerger::open`), its column is `Full` or `Optional`, and
+the column statistics cover its values. The range and null facts `C17_merge_stack_sorted` assumed
+are now DERIVED from the decision procedure. -/
+theorem C17_stack_decision_sound (desc : Bool) (cs : List SegCol)
+    (hlen : ∀ c ∈ cs, c.keys.length = c.alive.length)
+    (hcard : ∀ c ∈ cs, CardOk c) (hnm : ∀ c ∈ cs, c.card ≠ .multivalued)
+    (hstats : ∀ c ∈ cs, StatsOk c) (hne : ∀ c ∈ cs, c.liveKeys ≠ [])
+    (hsorted : ∀ c ∈ cs, sortedKeys desc c.liveKeys)
+    (hdec : stackDecision desc cs = true) :
+    sortedKeys desc ((cs.map SegCol.liveKeys).flatten) := by
+  simp only [stackDecision, Bool.and_eq_true, Bool.not_eq_true'] at hdec
+  obtain ⟨hdis, hnul⟩ := hdec
+  have hsome : ∀ c ∈ cs, ∀ k ∈ c.liveKeys, ∃ v, k = some v ∧ c.stats.1 ≤ v ∧ v ≤ c.stats.2 := by
+    intro c hc k hk
+    have hf := any_false_forall cs _ hnul c hc
+    cases hkv : k with
+    | none =>
+      exfalso
+      have := (hasLiveNulls_iff c (hlen c hc) (hcard c hc) (hnm c hc)).2 ⟨k, hk, hkv⟩
+      rw [hf] at this; cases this
+    | some v =>
+      exact ⟨v, rfl, hstats c hc k (mem_liveDocs _ _ _ hk) v hkv⟩
+  let sr : List (Stats × Run) := cs.map fun c => (c.stats, c.liveKeys.map fun k => (k, 0, 0))
+  have key := stack_sorted desc sr
+    (by
+      intro p hp
+      obtain ⟨c, hc, rfl⟩ := List.mem_map.1 hp
+      simp only [List.pairwise_map]
+      exact hsorted c hc)
+    (by
+      intro p hp
+      obtain ⟨c, hc, rfl⟩ := List.mem_map.1 hp
+      intro x hx
+      obtain ⟨k, hk, rfl⟩ := List.mem_map.1 hx
+      exact hsome c hc k hk)
+    (by
+      intro p hp
+      obtain ⟨c, hc, rfl⟩ := List.mem_map.1 hp
+      obtain ⟨k, hk⟩ := List.exists_mem_of_ne_nil _ (hne c hc)
+      obtain ⟨v, _, h1, h2⟩ := hsome c hc k hk
+      exact Nat.le_trans h1 h2)
+    (by
+      have e0 : sr.map (·.1) = cs.map (·.stats) := by simp only [sr, List.map_map]; rfl
+      rw [e0]; exact hdis)
+  have e : (sr.map (·.2)).flatten = ((cs.map SegCol.liveKeys).flatten).map fun k => (k, 0, 0) := by
+    simp only [sr, List.map_map, List.map_flatten]
+    rfl
+  rw [e, List.pairwise_map] at key
+  exact key
+
+example : stackDecision false [⟨.full, [some 1, some 5], [true, true], (1, 5)⟩,
+                               ⟨.optional, [none, some 5, some 9], [false, true, true], (5, 9)⟩] = true := by
+  decide
+example := C17_stack_decision_sound false
+  [⟨.full, [some 1, some 5], [true, true], (1, 5)⟩,
+   ⟨.optional, [none, some 5, some 9], [false, true, true], (5, 9)⟩]
+  (by decide) (by intro c hc; simp at hc; rcases hc with rfl | rfl <;> simp [CardOk])
+  (by decide)
+  (by intro c hc; simp at hc; rcases hc with rfl | rfl <;> simp [StatsOk] <;> omega)
+  (by decide)
+  (by intro c hc; simp at hc; rcases hc with rfl | rfl <;> simp [sortedKeys, SegCol.liveKeys, Merge.liveDocs, dirLe, keyLe])
+  (by decide)
+
+/-- NULL PLACEMENT as a property of every sorted key sequence (hence of every fresh segment by
+`C17_sort_order_perm_sorted`, every k-way merged segment by `C17_merge_kway_sorted` and every
+stacked segment by `C17_stack_decision_sound`): ascending, a document without value is never
+preceded by one with a value (the missing values form a prefix); descending, it is never
+followed by one (they form a suffix). -/
+theorem C17_null_placement (ks : List SKey) :
+    (sortedKeys false ks → ∀ i j (hij : i < j) (hj : j < ks.length), ks[j] = none → ks[i]'(by omega) = none) ∧
+    (sortedKeys true ks → ∀ i j (hij : i < j) (hj : j < ks.length), ks[i]'(by omega) = none → ks[j] = none) :=
+  ⟨fun h i j hij hj => sorted_nulls_asc ks h i j hij hj,
+   fun h i j hij hj => sorted_nulls_desc ks h i j hij hj⟩
+
+/-- null placement of the k-way merged order -/
+theorem C17_merge_null_placement (desc : Bool) (runs : List Run)
+    (h : ∀ r ∈ runs, sortedKeys desc (r.map (·.1))) (i j : Nat) (hij : i < j)
+    (hj : j < ((kmerge desc runs).map (·.1)).length) :
+    (desc = false → ((kmerge desc runs).map (·.1))[j] = none → ((kmerge desc runs).map (·.1))[i]'(by omega) = none) ∧
+    (desc = true → ((kmerge desc runs).map (·.1))[i]'(by omega) = none → ((kmerge desc runs).map (·.1))[j] = none) := by
+  have hs := (C17_merge_kway_sorted desc runs h).1
+  constructor
+  · intro hd; subst hd
+    exact (C17_null_placement _).1 hs i j hij hj
+  · intro hd; subst hd
+    exact (C17_null_placement _).2 hs i j hij hj
+
 end TantivyModel.C17
